@@ -257,6 +257,7 @@ type Interp struct {
 	Pt      *Point
 	Scripts map[string][]*gen.Node // for use()
 	File    string
+	Mode    int64 // value of pmode()
 	Fuel    int
 	Size    int
 	MapLoop bool             // a for-in over a map with >= 2 keys was executed: trace order is not unique
@@ -1711,6 +1712,11 @@ func (in *Interp) call(n *gen.Node) (any, error) {
 	case "pvoid":
 		in.record(probe.Rec{Label: "pvoid"})
 		return Void, nil
+	case "pmode":
+		if len(n.Args) != 0 {
+			return nil, ErrUnsupported
+		}
+		return in.Mode, nil
 	case "pvoid1":
 		v, err := in.Eval(n.Args[0])
 		if err != nil {
